@@ -2035,7 +2035,7 @@ def _u_none(m, f):
 #       for level, (rng_name, rng) in enumerate(ranges):  <float statements>          -> Fixpoint gen_hold_voltage_loop2
 #       factors.append(tuple(incs));  bases.append(base)
 #
-# Index names are an abstract type with decidable equality (nat); a python range is (start, step) (only these attributes may be
+# Index names are an abstract type with decidable equality (nat); a python range is a triple (GenLib grange; only .start/.step may be
 # used); `ranges[level + 1:]` inside `for level, .. in enumerate(ranges)` is the part of the list not yet visited; `if o and c`
 # on an Optional[float] o narrows o in the branch.
 
@@ -2053,7 +2053,7 @@ class HoldVoltageTranslator:
         if isinstance(e, ast.Name) and env.get(e.id) == 'Q':
             return e.id
         if isinstance(e, ast.Attribute) and isinstance(e.value, ast.Name) and env.get(e.value.id) == 'range' and e.attr in ('start', 'step'):
-            return '(inject_Z (%s %s))' % ({'start': 'fst', 'step': 'snd'}[e.attr], e.value.id)
+            return '(inject_Z (range_%s %s))' % (e.attr, e.value.id)
         if isinstance(e, ast.BinOp) and type(e.op) in (ast.Add, ast.Sub, ast.Mult):
             return '(%s %s %s)%%Q' % (self.q(e.left, env), {ast.Add: '+', ast.Sub: '-', ast.Mult: '*'}[type(e.op)], self.q(e.right, env))
         raise Unsupported('float expression ' + _u(e))
@@ -2118,14 +2118,222 @@ class HoldVoltageTranslator:
         env = {'offsets': 'offsets', 'base': 'Q', 'rng_name': 'name', 'rng': 'range', 'level': 'counter'}
         again = "gen_hold_voltage_loop2 l' offsets base incs"
         txt = self.stmts(inner.body, env, again)
-        loop = ('Fixpoint gen_hold_voltage_loop2 (l : list (nat * (Z * Z))) (offsets : list (nat * Q)) (base : Q) (incs : list Q) {struct l} : Q * list Q :=\n'
+        loop = ('Fixpoint gen_hold_voltage_loop2 (l : list (nat * grange)) (offsets : list (nat * Q)) (base : Q) (incs : list Q) {struct l} : Q * list Q :=\n'
                 "match l with\n| (rng_name, rng) :: l' =>\n%s\n| [] => (base, incs)\nend." % txt)
         main = ('(* one voltage of hold_voltage: a plain number (float(value), factors None) or a SimpleExpression (base, offsets by index name) *)\n'
                 'Definition gen_hold_voltage_plain (value : Q) : Q * option (list Q) := (value, None).\n\n'
-                'Definition gen_hold_voltage_expr (ranges : list (nat * (Z * Z))) (value_offsets : list (nat * Q)) (value_base : Q) : Q * option (list Q) :=\n'
+                'Definition gen_hold_voltage_expr (ranges : list (nat * grange)) (value_offsets : list (nat * Q)) (value_base : Q) : Q * option (list Q) :=\n'
                 'let offsets := value_offsets in\nlet base := value_base in\nlet incs := (@nil Q) in\n'
                 "let '(base, incs) := gen_hold_voltage_loop2 ranges offsets base incs in\n(base, Some incs).")
         return loop + '\n\n' + main
+
+
+
+def vm_run_text(tree):
+    """LinSpaceVM.run:  while self.current_command < len(self.commands): self.step()   -> a loop with fuel (None = fuel exhausted;
+    the loop has no variant: a program may jump back forever)"""
+    cl = _class(tree, 'LinSpaceVM')
+    m = _method(cl, 'run')
+    body = _body(m)
+    if [x.arg for x in m.args.args] != ['self'] or len(body) != 1 or not isinstance(body[0], ast.While) or body[0].orelse:
+        raise Unsupported('LinSpaceVM.run: expected one while loop')
+    w = body[0]
+    t = w.test
+    if not (isinstance(t, ast.Compare) and len(t.ops) == 1 and _u(t.left) == 'self.current_command' and _u(t.comparators[0]) == 'len(self.commands)'):
+        raise Unsupported('run: loop test ' + _u(t))
+    ft = dict(VM_SCHEMA.fields)
+    if ft['current_command'] != 'nat' or ft['commands'] != ('list', 'gcmd'):
+        raise Unsupported('run: schema')
+    a, b = '(gvm_current_command st)', '(length (gvm_commands st))'
+    c = {ast.Lt: '(Nat.ltb %s %s)' % (a, b), ast.LtE: '(Nat.leb %s %s)' % (a, b), ast.NotEq: '(negb (Nat.eqb %s %s))' % (a, b)}.get(type(t.ops[0]))
+    if c is None:
+        raise Unsupported('run: comparison')
+    if [_u(s) for s in w.body] != ['self.step()']:
+        raise Unsupported('run: loop body')
+    return ('Fixpoint gen_run (fuel : nat) (st : gvm) {struct fuel} : option (res gvm) :=\nmatch fuel with\n| O => None\n| S fuel\' =>\n'
+            'if %s then\nmatch gen_step st with\n| Err e => Some (Err e)\n| Ok st => gen_run fuel\' st\nend\nelse\nSome (Ok st)\nend.' % c)
+
+
+
+# =====================================================================================================================
+# Round 4: LinSpaceBuilder as a state machine.  Record gbuilder (the frame stack, the open ranges, the frame indices; the
+# channel name tables are not represented: hold_voltage gets its voltages in channel order, which is what its first two
+# statements produce).  A generator method `... yield self ...` (the protocol `for b in builder.with_x(..): <body>`) is split
+# at the yield: gen_<m>_enter returns (state, entered?) — a `return` before the yield means the body is skipped — and
+# gen_<m>_exit is the part after the yield.  A python range is a triple (start, stop, step) (GenLib: range_start/range_step/
+# range_length).
+
+BUILDER_FIELDS = [('_name_to_idx', None), ('_idx_to_name', None), ('_stack', 'list (list gnode)'),
+                  ('_ranges', 'list (nat * grange)'), ('_frame_index', 'list (option nat)')]
+
+
+class BuilderTranslator:
+    def __init__(self, tree):
+        self.cl = _class(tree, 'LinSpaceBuilder')
+        init = _method(self.cl, '__init__')
+        got = [_u(s) for s in _body(init)]
+        want = ['super().__init__()', 'self._name_to_idx = {name: idx for idx, name in enumerate(channels)}', 'self._idx_to_name = channels',
+                'self._stack = [[]]', 'self._ranges = []', 'self._frame_index = [None]']
+        if got != want:
+            raise Unsupported('LinSpaceBuilder.__init__: %s' % got)
+        self.fields = [(f, t) for f, t in BUILDER_FIELDS if t is not None]
+
+    def upd(self, f, val):
+        return '(mkGb %s)' % ' '.join(val if g == f else '(gb%s st)' % g for g, _ in self.fields)
+
+    def expr(self, e, env, opt=False):
+        s = _u(e)
+        if s == '[]':
+            return '[]'
+        if s == 'None':
+            return 'None'
+        if isinstance(e, ast.Name) and e.id in env:
+            return ('(Some %s)' % e.id) if opt else e.id
+        if isinstance(e, ast.Tuple) and len(e.elts) == 2:
+            return '(%s, %s)' % (self.expr(e.elts[0], env), self.expr(e.elts[1], env))
+        raise Unsupported('expression ' + s)
+
+    def node_ctor(self, e, env):
+        """LinSpaceRepeat(body=tuple(x), count=n) / LinSpaceIter(body=tuple(x), length=len(rng))"""
+        if not (isinstance(e, ast.Call) and isinstance(e.func, ast.Name) and e.func.id in dict(NODE_CLASSES) and not e.args):
+            raise Unsupported('node constructor ' + _u(e))
+        fields = [(f, t) for f, _, t in dict(NODE_CLASSES)[e.func.id] if t is not None]
+        kw = {k.arg: k.value for k in e.keywords}
+        if sorted(kw) != sorted(f for f, _ in fields):
+            raise Unsupported('node constructor keywords ' + _u(e))
+        parts = []
+        for f, t in fields:
+            v = kw[f]
+            if t == ('list', 'gnode'):
+                if not (isinstance(v, ast.Call) and _u(v.func) == 'tuple' and len(v.args) == 1 and isinstance(v.args[0], ast.Name)
+                        and env.get(v.args[0].id) == 'nodes'):
+                    raise Unsupported('node body ' + _u(v))
+                parts.append(v.args[0].id)
+            elif t == 'Z':
+                if isinstance(v, ast.Name) and env.get(v.id) == 'Z':
+                    parts.append(v.id)
+                elif isinstance(v, ast.Call) and _u(v.func) == 'len' and len(v.args) == 1 and isinstance(v.args[0], ast.Name) and env.get(v.args[0].id) == 'range':
+                    parts.append('(range_length %s)' % v.args[0].id)
+                else:
+                    raise Unsupported('node field ' + _u(v))
+            else:
+                raise Unsupported('node field type')
+        return '(G%s %s)' % (e.func.id, ' '.join(parts))
+
+    def stmts(self, ss, env, end):
+        if not ss:
+            return end
+        s, rest = ss[0], ss[1:]
+        # self.F.append(E)
+        if isinstance(s, ast.Expr) and isinstance(s.value, ast.Call) and isinstance(s.value.func, ast.Attribute) and s.value.func.attr == 'append' \
+                and len(s.value.args) == 1 and isinstance(s.value.func.value, ast.Attribute) and _u(s.value.func.value.value) == 'self' \
+                and s.value.func.value.attr in dict(self.fields):
+            f = s.value.func.value.attr
+            return 'let st := %s in\n%s' % (self.upd(f, '((gb%s st) ++ [%s])' % (f, self.expr(s.value.args[0], env, dict(self.fields)[f] == 'list (option nat)'))), self.stmts(rest, env, end))
+        # [x =] self.F.pop()
+        call = s.value if isinstance(s, (ast.Expr, ast.Assign)) else None
+        if isinstance(call, ast.Call) and isinstance(call.func, ast.Attribute) and call.func.attr == 'pop' and not call.args \
+                and isinstance(call.func.value, ast.Attribute) and _u(call.func.value.value) == 'self' and call.func.value.attr in dict(self.fields):
+            f = call.func.value.attr
+            if isinstance(s, ast.Assign):
+                if len(s.targets) != 1 or not isinstance(s.targets[0], ast.Name) or s.targets[0].id in env or f != '_stack':
+                    raise Unsupported('pop target')
+                x = s.targets[0].id
+                env = dict(env, **{x: 'nodes'})
+            else:
+                x = '_'
+            return ('match pop_last_v (gb%s st) with\n| None => Err EIndex\n| Some (l, %s) =>\nlet st := %s in\n%s\nend'
+                    % (f, x, self.upd(f, 'l'), self.stmts(rest, env, end)))
+        # if x: self._stack[-1].append(Node(..))
+        if isinstance(s, ast.If) and isinstance(s.test, ast.Name) and env.get(s.test.id) == 'nodes' and not s.orelse and len(s.body) == 1:
+            b = s.body[0]
+            if isinstance(b, ast.Expr) and isinstance(b.value, ast.Call) and _u(b.value.func) == 'self._stack[-1].append' and len(b.value.args) == 1:
+                node = self.node_ctor(b.value.args[0], env)
+                nxt = self.stmts(rest, env, end)
+                return ('if (negb (is_nil %s)) then\nmatch stack_top_append %s (gb_stack st) with\n| None => Err EIndex\n| Some l =>\nlet st := %s in\n%s\nend\nelse\n%s'
+                        % (s.test.id, node, self.upd('_stack', 'l'), nxt, nxt))
+        raise Unsupported('statement ' + _u(s)[:80])
+
+    def generator(self, name, params, env):
+        m = _method(self.cl, name)
+        if [x.arg for x in m.args.args][:1 + len(params)] != ['self'] + params or (m.decorator_list and [_u(d) for d in m.decorator_list] != ['contextlib.contextmanager']):
+            raise Unsupported('%s signature' % name)
+        for x in m.args.args[1 + len(params):]:
+            if x.arg != 'measurements':
+                raise Unsupported('%s: extra parameter %s' % (name, x.arg))
+        body = _body(m)
+        ys = [i for i, s in enumerate(body) if _u(s) == 'yield self']
+        if len(ys) != 1 or any(isinstance(x, (ast.Yield, ast.YieldFrom)) for i, s in enumerate(body) if i != ys[0] for x in ast.walk(s)):
+            raise Unsupported('%s: exactly one top-level `yield self` expected' % name)
+        before, after = body[:ys[0]], body[ys[0] + 1:]
+        ptxt = ' '.join('(%s : %s)' % (p, {'Z': 'Z', 'range': 'grange', 'name': 'nat'}[env[p]]) for p in params)
+        # early return: `if <test>: return` as the first statement
+        guard = None
+        if before and isinstance(before[0], ast.If) and [_u(x) for x in before[0].body] == ['return'] and not before[0].orelse:
+            t = before[0].test
+            if isinstance(t, ast.Compare) and len(t.ops) == 1 and isinstance(t.ops[0], ast.Eq) and _u(t.comparators[0]) == '0':
+                l = t.left
+                if isinstance(l, ast.Name) and env.get(l.id) == 'Z':
+                    guard = '(%s =? 0)%%Z' % l.id
+                elif isinstance(l, ast.Call) and _u(l.func) == 'len' and len(l.args) == 1 and isinstance(l.args[0], ast.Name) and env.get(l.args[0].id) == 'range':
+                    guard = '(range_length %s =? 0)%%Z' % l.args[0].id
+            if guard is None:
+                raise Unsupported('%s: early return test %s' % (name, _u(t)))
+            before = before[1:]
+        enter = self.stmts(before, env, 'Ok (st, true)')
+        if guard:
+            enter = 'if %s then\nOk (st, false)\nelse\n%s' % (guard, enter)
+        ex = self.stmts(after, env, 'Ok st')
+        return ('Definition gen_%s_enter (st : gbuilder) %s : res (gbuilder * bool) :=\n%s.\n\n'
+                'Definition gen_%s_exit (st : gbuilder) %s : res gbuilder :=\n%s.' % (name, ptxt, enter, name, ptxt, ex))
+
+    def hold_voltage(self):
+        m = _method(self.cl, 'hold_voltage')
+        body = [_u(s) for s in _body(m)]
+        head = ['voltages = sorted(((self._name_to_idx[ch_name], value) for ch_name, value in voltages.items()))',
+                'voltages = [value for _, value in voltages]', 'ranges = self._ranges', 'factors = []', 'bases = []']
+        tail = ['if isinstance(duration, SimpleExpression):\n    duration_factors = duration.offsets\n    duration_base = duration.base\n'
+                'else:\n    duration_base = duration\n    duration_factors = None',
+                'set_cmd = LinSpaceHold(bases=tuple(bases), factors=tuple(factors), duration_base=duration_base, duration_factors=duration_factors)',
+                'self._stack[-1].append(set_cmd)']
+        if body[:5] != head or body[6:] != tail or not body[5].startswith('for value in voltages:'):
+            raise Unsupported('hold_voltage: statements around the loop over the voltages: %s' % [b[:50] for b in body])
+        return ('(* the loop over the voltages (given in channel order: that is what the first two statements of hold_voltage produce) *)\n'
+                'Fixpoint gen_hold_voltage_loop1 (l : list gvalue) (ranges : list (nat * grange)) (bases : list Q) (factors : list (option (list Q))) {struct l} '
+                ': list Q * list (option (list Q)) :=\nmatch l with\n| value :: l\' =>\nmatch value with\n| GNum value =>\n'
+                'let bases := (bases ++ [value]) in\nlet factors := (factors ++ [None]) in\ngen_hold_voltage_loop1 l\' ranges bases factors\n'
+                '| GExpr value_base value_offsets =>\nlet offsets := value_offsets in\nlet base := value_base in\nlet incs := (@nil Q) in\n'
+                "let '(base, incs) := gen_hold_voltage_loop2 ranges offsets base incs in\nlet factors := (factors ++ [Some incs]) in\nlet bases := (bases ++ [base]) in\n"
+                'gen_hold_voltage_loop1 l\' ranges bases factors\nend\n| [] => (bases, factors)\nend.\n\n'
+                'Definition gen_hold_voltage (st : gbuilder) (duration : gvalue) (voltages : list gvalue) : res gbuilder :=\n'
+                'let ranges := (gb_ranges st) in\nlet factors := (@nil (option (list Q))) in\nlet bases := (@nil Q) in\n'
+                "let '(bases, factors) := gen_hold_voltage_loop1 voltages ranges bases factors in\n"
+                "let '(duration_base, duration_factors) := match duration with\n| GExpr duration_base duration_offsets => (duration_base, map snd duration_offsets)\n"
+                '| GNum duration => (duration, [])\nend in\n'
+                'let set_cmd := (GLinSpaceHold bases factors duration_base duration_factors) in\n'
+                'match stack_top_append set_cmd (gb_stack st) with\n| None => Err EIndex\n| Some l =>\nlet st := %s in\nOk st\nend.' % self.upd('_stack', 'l'))
+
+    def to_program(self):
+        if [_u(s) for s in _body(_method(self.cl, '_root'))] != ['return self._stack[0]'] or \
+                [_u(s) for s in _body(_method(self.cl, 'to_program'))] != ['if self._root():\n    return self._root()']:
+            raise Unsupported('to_program / _root')
+        return ('Definition gen_to_program (st : gbuilder) : res (option (list gnode)) :=\nmatch nth_error (gb_stack st) 0 with\n| None => Err EIndex\n'
+                '| Some root =>\nif (negb (is_nil root)) then\nOk (Some root)\nelse\nOk None\nend.')
+
+    def translate(self):
+        rec = ('(* a voltage / duration handed to the builder: a plain number (python/numpy float or int, TimeType) or a SimpleExpression(base, offsets by index name) *)\n'
+               'Inductive gvalue :=\n| GNum (value : Q)\n| GExpr (base : Q) (offsets : list (nat * Q)).\n\n'
+               'Record gbuilder := mkGb {\n  %s }.\n\n'
+               'Definition gen_builder_init : gbuilder := (mkGb [[]] [] [None]).' % ';\n  '.join('gb%s : %s' % (f, t) for f, t in self.fields))
+        seq = _body(_method(self.cl, 'with_sequence'))
+        if [_u(s) for s in seq] != ['yield self']:
+            raise Unsupported('with_sequence')
+        return '\n\n'.join([rec, self.hold_voltage(),
+                            self.generator('with_repetition', ['repetition_count'], {'repetition_count': 'Z'}),
+                            self.generator('with_iteration', ['index_name', 'rng'], {'index_name': 'name', 'rng': 'range'}),
+                            '(* with_sequence: `yield self` only *)\nDefinition gen_with_sequence_enter (st : gbuilder) : res (gbuilder * bool) := Ok (st, true).\n'
+                            'Definition gen_with_sequence_exit (st : gbuilder) : res gbuilder := Ok st.',
+                            self.to_program()])
 
 
 def translate_translator(path):
@@ -2145,11 +2353,11 @@ def translate_translator(path):
         tr.rec_cls = {'node': tr.rec_for.get(name)}
         texts.append(tr.method_text(name, params))
     texts.append(tr.add_node_text())
-    parts = ['(* GENERATED by /verif/translate/py2gallina_c17.py (KeyTranslator, DepsTranslator, TrTranslator, HoldVoltageTranslator) from %s: the node dataclasses, '
+    parts = ['(* GENERATED by /verif/translate/py2gallina_c17.py (KeyTranslator, DepsTranslator, TrTranslator, HoldVoltageTranslator, BuilderTranslator) from %s: the node dataclasses, '
              'DepKey.from_voltages, dependencies(), _TranslationState.new_loop/get_dependency_state/_entry_state_unchanged_since/'
-             '_add_repetition_node/_add_iteration_node/add_node, to_increment_commands, LinSpaceVM.__init__, the voltage loop of LinSpaceBuilder.hold_voltage -- do not edit *)' % path,
+             '_add_repetition_node/_add_iteration_node/add_node, to_increment_commands, LinSpaceVM.__init__/run, LinSpaceBuilder (hold_voltage, with_repetition/with_iteration/with_sequence split at the yield, to_program) -- do not edit *)' % path,
              'From Coq Require Import ZArith QArith List Bool.',
              'Require Import QV.C17.Model QV.C17.GenLib QV.C17.Gen_linspace QV.C17.Gen_linspace_obj.', 'Import ListNotations.', '',
              node_inductive(tree), resolution_constant(tree), KeyTranslator(tree).translate(), DepsTranslator(tree).translate()] + texts + \
-            [translation_state_default(tree), to_increment_commands_text(tree), vm_init_text(tree), HoldVoltageTranslator(tree).translate(), '']
+            [translation_state_default(tree), to_increment_commands_text(tree), vm_init_text(tree), vm_run_text(tree), HoldVoltageTranslator(tree).translate(), BuilderTranslator(tree).translate(), '']
     return '\n\n'.join(parts)
